@@ -26,6 +26,8 @@ CFGS = {
     # the local date goes back once (another time zone) while time goes on: retention, names, read-back, days
     ("C06", "zone"): dict(Ls="{3}", Ns="{0, 2, 3}", Opts="{0, 2, 4}", Sizes="{2}", MaxSends=4, MaxDay=1, Ticks="TRUE", ZoneBack="TRUE"),
     ("C09", "zone"): dict(Ls="{0, 3}", Ns="{0, 2}", Opts="{2, 6}", Sizes="{2}", MaxSends=4, MaxDay=1, MaxRestarts=0, ZoneBack="TRUE"),
+    ("C06", "zone_thorough"): dict(Ls="{3}", Ns="{0, 2, 3}", Opts="{0, 2, 4}", Sizes="{2}", MaxSends=5, MaxDay=1, Ticks="TRUE", ZoneBack="TRUE"),
+    ("C09", "zone_thorough"): dict(Ls="{0, 3}", Ns="{0, 2}", Opts="{2, 3, 6}", Sizes="{1, 2}", MaxSends=4, MaxDay=2, MaxRestarts=1, ZoneBack="TRUE"),
     ("C07", "quick"): dict(Ls="{2, 3, 5}", Ns="{0, 2}", Opts="{0, 1, 2}", Sizes="{1, 2, 3, 4}", MaxSends=4, MaxDay=1),
     ("C07", "thorough"): dict(Ls="{2, 3, 5}", Ns="{0, 2, 1}", Opts="{0, 1, 2, 3, 4}", Sizes="{1, 2, 3, 4, 6}", MaxSends=5, MaxDay=1),
     # compression: multi-write bodies, a crash anywhere
